@@ -393,6 +393,69 @@ def mt_probes():
     return out
 
 
+# ---- systematic product: expression-level sites x consumers of their value ------------------------
+# A site is an expression that consults the undefined behaviour when it evaluates its operand `@`; a
+# consumer is a template that takes the value `$` of an expression and never fails on an undefined
+# VALUE (so a failure can only come from the site).  Every site is combined with every consumer: a
+# site that defers its check "to whoever consumes the result" is caught whoever the consumer is.
+REC = "{% for q in [1] recursive %}<<BODY>>{% endfor %}"   # wrapper: <<BODY>> = the consumer, inside a recursive loop
+EXPR_SITES = [  # (id, class, expression, wrapper | None)
+    ("and-left", "truth", "@ and 1", None), ("and-left-nested", "truth", "(@ and 1) and 2", None), ("and-in-or", "truth", "0 or (@ and 1)", None),
+    ("and-left-undef-right", "truth", "@ and @", None), ("or-left", "truth", "@ or 0", None), ("or-left-undef-right", "truth", "@ or @", None),
+    ("or-then-and", "truth", "(@ or 0) and 1", None), ("and-then-or", "truth", "(@ and 1) or 0", None), ("not", "truth", "not @", None),
+    ("not-and", "truth", "not (@ and 1)", None), ("ifexpr-cond", "truth", "1 if @ else 2", None), ("ifexpr-cond-noelse", "truth", "1 if @", None),
+    ("ifexpr-cond-and", "truth", "1 if (@ and 1) else 2", None), ("bool-filter", "truth", "@|bool", None),
+    ("loop-recurse", "iterate", "loop(@)", REC), ("loop-recurse-filtered", "iterate", "loop(@)|upper", REC),
+    ("loop-recurse-nested-arg", "iterate", "loop(@)|default('r')", REC),
+    ("f-list", "iterate", "@|list", None), ("f-sum", "iterate", "@|sum", None), ("f-sort", "iterate", "@|sort", None), ("f-unique", "iterate", "@|unique|list", None),
+    ("f-map", "iterate", "@|map('upper')|list", None), ("f-select", "iterate", "@|select|list", None), ("f-batch", "iterate", "@|batch(2)|list", None),
+    ("in-container", "iterate", "1 in @", None), ("not-in-container", "iterate", "1 not in @", None),
+    ("attr", "access", "@.a", None), ("item-int", "access", "@[0]", None), ("item-str", "access", "@['k']", None), ("attr-attr", "access", "@.a.b", None),
+]
+CONSUMERS = [  # (id, template; `$` = the value consumed)
+    ("default", "{{ ($)|default('D') }}"), ("d", "{{ ($)|d('D') }}"), ("is-defined", "{{ ($) is defined }}"), ("is-undefined", "{{ ($) is undefined }}"),
+    ("is-not-defined", "{{ ($) is not defined }}"), ("is-none", "{{ ($) is none }}"),
+    ("set", "{% set z = $ %}done"), ("set-then-defined", "{% set z = $ %}{{ z is defined }}"), ("with", "{% with z = $ %}{{ z is defined }}{% endwith %}"),
+    ("macro-arg", "{% macro m(a) %}{{ a is defined }}{% endmacro %}{{ m($) }}"), ("macro-kwarg", "{% macro m(a) %}{{ a is defined }}{% endmacro %}{{ m(a=$) }}"),
+    ("macro-default", "{% macro m(a=$) %}{{ a is defined }}{% endmacro %}{{ m() }}"),
+    ("caller-arg", "{% macro m(v) %}{{ caller(v) }}{% endmacro %}{% call(a) m($) %}{{ a is defined }}{% endcall %}"),
+    ("function-kwarg", "{{ dict(a=$)|length }}"), ("namespace", "{% set ns = namespace(a=$) %}{{ ns.a is defined }}"),
+    ("list-item", "{{ [$]|length }}"), ("list-item-2", "{{ [0, $]|length }}"), ("map-value", "{{ {'k': $}|length }}"), ("tuple-item", "{{ ($, 1)|length }}"),
+    ("loop-over-literal", "{% for i in [$] %}{{ i is defined }}{% endfor %}"),
+    ("ifexpr-then", "{{ ($ if true else 0) is defined }}"), ("ifexpr-else", "{{ (0 if false else $) is defined }}"), ("ifexpr-then-noelse", "{{ ($ if true) is defined }}"),
+    ("and-right", "{{ (true and ($)) is defined }}"), ("or-right", "{{ (false or ($)) is defined }}"),
+    ("select-defined", "{{ [$]|select('defined')|list|length }}"), ("filter-arg", "{{ none|default($) is none }}"),
+]
+PRINT_CONSUMER = ("print", "{{ $ }}")          # not tolerant: only for sites whose value is defined when they succeed
+PRODUCT_UNDEFS = [("u", "u"), ("missing-attr", "d.zz")]
+REF_OVERRIDE = {}
+
+
+def product_probes():
+    out = []
+    for sid, cls, expr, wrap in EXPR_SITES:
+        cons = CONSUMERS + ([PRINT_CONSUMER] if cls in ("iterate", "access") else [])
+        for cid, ct in cons:
+            for un, ue in PRODUCT_UNDEFS:
+                site = "px:%s:%s:%s" % (sid, cid, un)
+                def build(e):
+                    t = ct.replace("$", e)
+                    return wrap.replace("<<BODY>>", t) if wrap else t
+                tmpl = build(expr)                       # still holds `@`
+                if cls == "truth":
+                    ref = (build(expr.replace("@", "(1 if false)")), 2)      # an undefined whose truth test never fails
+                elif cls == "iterate":
+                    ref = (build(expr.replace("@", "[]")), 2)
+                else:
+                    ref = (build(ue), 3)                                     # the undefined itself, under chainable
+                REF_OVERRIDE[site] = ref
+                out.append((site, cls, tmpl, ue))
+    return out
+
+
+product_probes()          # fills REF_OVERRIDE (needed by --replay as well)
+
+
 def matrix_probes():
     """[(site id, class, template with @, operand)]"""
     out = list(CORE)
@@ -408,7 +471,7 @@ def matrix_probes():
     out += EXTRA_PRINT
     for an, at, ae, _ in ACCESS:
         out.append(("access:%s" % an, "access", at, ae))
-    return out + mt_probes()
+    return out + mt_probes() + product_probes()
 
 
 NEVER_EXPECT = {"never:%s:%s" % (pn, un): ex for un, _ in UNDEFS for pn, _, ex in NEVER}
@@ -419,6 +482,8 @@ ACCESS_BASE.update({"core:attr": "u", "core:item": "u"})
 
 def reference_template(site, cls, tmpl, operand):
     """(template, mode index) whose rendering says what "yields nothing" / "is false" / "an undefined" means here"""
+    if site in REF_OVERRIDE:
+        return REF_OVERRIDE[site]
     if cls in ("print", "print-nested"):
         return subst(tmpl, "''"), 2
     if cls == "iterate":
@@ -727,7 +792,7 @@ def main():
             dev = judge_probe(site, cls, row, ref)
             mv = mono_violation(row)
             if not rel and not fmt:
-                hist["probe_" + ("multi_template_" if site.startswith("mt:") else "") + cls] += 1
+                hist["probe_" + ("multi_template_" if site.startswith("mt:") else "product_" if site.startswith("px:") else "") + cls] += 1
                 matrix_table[site] = row_show(row)
                 if len(set(o[0] for o in row)) > 1:
                     nontriv.add(key_of(src))
